@@ -368,6 +368,15 @@ def solve(ob, timeout_s=30, workdir=None, solvers=None, wait_all=False):
     return res
 
 
+def tainted(ob):
+    """names of over-approximated values (term.approx) that the negated goal or a hypothesis mentions: a counter-model
+    of such a query may assign them a text the code never produces"""
+    fv = {}
+    for t in list(ob.hyps) + [ob.goal]:
+        tm.free_vars(t, fv)
+    return sorted(v.args[0] for v in fv if str(v.args[0]).startswith(tm.APPROX_PREFIX))
+
+
 def _has_quant(t):
     return any(x.op in ("forall", "exists", "forall_range", "exists_range") for x in tm.subterms(t))
 
